@@ -797,26 +797,31 @@ theorem sat_hStat {wh : WHandle} {k : Key} {n : Node} {w : World} (hg : S.G w.fs
     apply Sat.pure
     exact ⟨h1, OnlyFault.ok, by intro fi h; cases h; exact hfor⟩
 
-/-- `RemoveAll` of a present key below which nothing else lives: confined to the key -/
-theorem sat_removeAll_at {k : Key} {w : World} (hg : S.G w.fs) (hk : PKey k) (hkne : k ≠ [])
+/-- `Remove` of a present key below which nothing lives (a regular file, a symlink, or a directory
+that is empty — what the transaction created below it went in phase 1): succeeds, confined to the key -/
+theorem sat_remove_at {k : Key} {w : World} (hg : S.G w.fs) (hk : PKey k) (hkne : k ≠ [])
     (hacc : NoLinkAnc (S.view .base w.fs) k) (hv : S.view .base w.fs k ≠ none)
     (hbelow : ∀ j, k <+: j → j ≠ k → S.view .base w.fs j = none) :
-    Sat (primUnit cfg .base (.removeAll (kp k))) w (fun w' r => S.Chg .base (· = k) w w' ∧
+    Sat (primUnit cfg .base (.remove (kp k))) w (fun w' r => S.Chg .base (· = k) w w' ∧
       (r = .ok () → S.view .base w'.fs k = none) ∧ OnlyFault w r) := by
-  apply (sat_primUnit_exact (S := S) (s := .base) (c := .removeAll (kp k)) (K := (· = k))
+  have hnode : (S.view .base w.fs).isFileAt k ∨ isLinkAt (S.view .base w.fs) k ∨
+      ((S.view .base w.fs).isDirAt k ∧ ¬ (S.view .base w.fs).hasChild k) := by
+    cases hn : S.view .base w.fs k with
+    | none => exact absurd hn hv
+    | some n =>
+      cases n with
+      | file c mt => exact Or.inl ⟨c, mt, hn⟩
+      | link t mt => exact Or.inr (Or.inl ⟨t, mt, hn⟩)
+      | dir mt =>
+        refine Or.inr (Or.inr ⟨⟨mt, hn⟩, ?_⟩)
+        rintro ⟨name, hch⟩
+        exact hch (hbelow (k ++ [name]) ⟨[name], rfl⟩ (by simp))
+  apply (sat_primUnit_exact (S := S) (s := .base) (c := .remove (kp k)) (K := (· = k))
     (P := fun m' => S.view .base m' k = none) hg
     (fun m' r h => by
-      obtain ⟨g, o, f', lm⟩ := S.removeAll_frame hg hk hkne hacc h
-      obtain ⟨m'', h'', hall⟩ := S.removeAll_ok hg hk hkne hv
-      rw [h] at h''; cases h''
-      refine ⟨g, o, ?_, lm⟩
-      intro j hj
-      by_cases hpre : k <+: j
-      · rw [hall j hpre, hbelow j hpre hj]
-      · exact f' j hpre)
-    (by
-      obtain ⟨m'', h'', hall⟩ := S.removeAll_ok hg hk hkne hv
-      exact ⟨m'', h'', hall k List.prefix_rfl⟩)).mono
+      obtain ⟨g, o, f', lm⟩ := S.remove_frame hg hk hkne hacc h
+      exact ⟨g, o, fun j hj => f' j hj, lm⟩)
+    (S.remove_ok hg hk hkne hnode)).mono
   intro w' r ⟨hc, hp, hof⟩
   exact ⟨hc, hp, hof⟩
 
@@ -894,7 +899,8 @@ theorem phase3 {w w2 : World} (hinv : Inv S v0 w)
         let replaced := match baseFi with
           | some b => !b.isRegular
           | none => false
-        BFS.whenM (!fi.isRegular || replaced) (primUnit cfg .base (.removeAll (kp k)))
+        if !fi.isRegular then primUnit cfg .base (.removeAll (kp k))
+        else BFS.whenM replaced (primUnit cfg .base (.remove (kp k)))
         copyFile cfg .base (kp k) i f : M Unit) wa
         (fun w3 r => r = .ok () ∧ S.Chg .base (· = k) w' w3 ∧ S.view .base w3.fs k = some (restoredFile c i)) := by
       apply Sat.bind
@@ -916,27 +922,27 @@ theorem phase3 {w w2 : World} (hinv : Inv S v0 w)
       have hsac := hsab.trans hsc
       have hgc : S.G wc.fs := hsac.fs ▸ hm.good
       have hfc : wc.faults = [] := by rw [hsac.faults]; exact hm.faults
-      -- RemoveAll of whatever is in the way
+      -- Remove of whatever is in the way (a symlink, or a directory that is empty by now)
       have hrm : S.view .base w'.fs k ≠ none →
-          Sat (primUnit cfg .base (.removeAll (kp k))) wc (fun w3 r => r = .ok () ∧
+          Sat (primUnit cfg .base (.remove (kp k))) wc (fun w3 r => r = .ok () ∧
             S.Chg .base (· = k) w' w3 ∧ CanWrite (S.view .base w3.fs) k) := by
         intro hv
-        apply (sat_removeAll_at (S := S) hgc hk hkne (by rw [hsac.fs]; exact hacc)
+        apply (sat_remove_at (S := S) hgc hk hkne (by rw [hsac.fs]; exact hacc)
           (by rw [hsac.fs]; exact hv) (by rw [hsac.fs]; exact hbelow)).mono
         intro w3 r3 ⟨hc3, hp3, hof3⟩
         obtain ⟨u, hr⟩ := OnlyFault.nofault hof3 hfc
         subst hr
         have hc := LSim.Chg.same_left hsac hc3
         exact ⟨rfl, hc, Or.inr ⟨hp3 rfl, hpar w3 hc⟩⟩
-      have hroom : ∃ cur, rc = .ok cur ∧ Sat (BFS.whenM (!fi.isRegular || (match cur with
+      have hroom : ∃ cur, rc = .ok cur ∧ Sat (BFS.whenM (match cur with
           | some b => !b.isRegular
-          | none => false)) (primUnit cfg .base (.removeAll (kp k)))) wc (fun w3 r => r = .ok () ∧
+          | none => false) (primUnit cfg .base (.remove (kp k)))) wc (fun w3 r => r = .ok () ∧
             S.Chg .base (· = k) w' w3 ∧ CanWrite (S.view .base w3.fs) k) := by
         cases hv : S.view .base w'.fs k with
         | none =>
           refine ⟨none, hnone (by rw [hsab.fs]; exact hv), ?_⟩
           apply Sat.whenM
-          · intro h; simp [hfireg] at h
+          · intro h; cases h
           · intro _
             have hc := LSim.Chg.of_same (S := S) (s := .base) (K := (· = k)) hm.good hsac
             exact ⟨rfl, hc, Or.inr ⟨by rw [hsac.fs]; exact hv, hpar wc hc⟩⟩
@@ -947,7 +953,7 @@ theorem phase3 {w w2 : World} (hinv : Inv S v0 w)
           | file c' mt' =>
             have : bi.isRegular = true := by simp [Info.isRegular, hbi.1, Node.kind]
             apply Sat.whenM
-            · intro h; simp [hfireg, this] at h
+            · intro h; simp [this] at h
             · intro _
               exact ⟨rfl, LSim.Chg.of_same hm.good hsac, Or.inl ⟨c', mt', by rw [hsac.fs]; exact hv⟩⟩
           | link t mt' =>
@@ -966,7 +972,7 @@ theorem phase3 {w w2 : World} (hinv : Inv S v0 w)
               simp [this] at h
       obtain ⟨cur, hrc, hroomsat⟩ := hroom
       subst hrc
-      simp only
+      simp only [hfireg, Bool.not_true, Bool.false_eq_true, if_false]
       apply Sat.bind
       apply hroomsat.mono
       intro w3 r3 ⟨hr3, hc3, hcw3⟩
@@ -1110,7 +1116,7 @@ theorem phase4 {w w3 : World} (hinv : Inv S v0 w)
     have hgb : S.G wb.fs := hsab.fs ▸ hm.good
     have hfb : wb.faults = [] := by rw [hsab.faults]; exact hm.faults
     have hroom : ∃ cur : Option Info, rb = .ok cur ∧
-        Sat (BFS.whenM cur.isSome (primUnit cfg .base (.removeAll (kp k)))) wb (fun w3 r => r = .ok () ∧
+        Sat (BFS.whenM cur.isSome (primUnit cfg .base (.remove (kp k)))) wb (fun w3 r => r = .ok () ∧
           S.Chg .base (· = k) w' w3 ∧ S.view .base w3.fs k = none) := by
       cases hv : S.view .base w'.fs k with
       | none =>
@@ -1124,7 +1130,7 @@ theorem phase4 {w w3 : World} (hinv : Inv S v0 w)
         refine ⟨some ci, hrb, ?_⟩
         apply Sat.whenM
         · intro _
-          apply (sat_removeAll_at (S := S) hgb hk hkne (by rw [hsab.fs]; exact hacc)
+          apply (sat_remove_at (S := S) hgb hk hkne (by rw [hsab.fs]; exact hacc)
             (by rw [hsab.fs, hv]; simp) (by rw [hsab.fs]; exact hbelow)).mono
           intro w3 r3 ⟨hc3, hp3, hof3⟩
           obtain ⟨u, hr⟩ := OnlyFault.nofault hof3 hfb
